@@ -56,3 +56,28 @@ check("C19",
       level_note="")
 
 NOT_YET = {}
+
+check("C06",
+      packages=["l1chan"],
+      category="fault_enumeration",
+      technique="crash-point enumeration: every datastore write boundary of every explored (state, event) pair is reopened with a fresh Channels and compared with the announced states (prefix consistency)",
+      rule="BFS (factored key, to closure; thorough adds role-inconsistent full-key depth 3) over operation histories on the real channels.Channels with a write-logging datastore; for the last operation of every history every write boundary image is reopened: listed channels = created channels, the accessor vector equals one of the states current for the channel, monotone; the queried state equals the durable image. distinct = distinct canonical states whose outgoing write boundaries were all reopened.",
+      design_ref="DESIGN.md 5/C06",
+      level_text="exhaustive within bounds: all write boundaries of all explored transitions",
+      level_note="each FSM event is one single-key Put (atomic by the datastore contract), so no torn multi-key images exist; multi-channel and manager-level restart-of-cleanup cells are separate")
+
+check("C09",
+      packages=["l1chan"],
+      technique="explicit-state BFS with replay + exhaustive (state x ending x window-event) enumeration with the cleanup callback held open",
+      rule="(a) closure BFS: every transition into a terminal status is accompanied by exactly one CleanupChannel and one Unprotect, none otherwise, and no channel rests in a cleanup status; (b) for every representative state x every ending x every window event injected while the cleanup call is parked: terminal reached, #cleanup=#unprotect>=1 (=1 with no further input), no terminal status published before cleanup returned. distinct = distinct canonical states + distinct outcomes.",
+      design_ref="DESIGN.md 5/C09",
+      level_text="exhaustive within bounds",
+      level_note="transport-level close cells (fakeGS) and manager-level cancel-message cells are separate packages")
+
+check("C18",
+      packages=["l1chan"],
+      technique="explicit-state BFS with replay: duplicate CreateNew applied in every reachable state",
+      rule="closure BFS with a duplicate CreateNew (same channel ID, different root/voucher) applied in every reachable canonical state: must return an error, leave the accessor vector unchanged and emit no event. distinct = distinct canonical states.",
+      design_ref="DESIGN.md 5/C18",
+      level_text="exhaustive within bounds",
+      level_note="concurrent ID generation and manager lifetimes are covered by the scheduler cells")
